@@ -130,7 +130,9 @@ func (j *joiner) readAtOffset(b, data []byte, cur, subTrieSize, off, bufferOffse
 		return
 	}
 
-	for cursor := 0; cursor < len(data); cursor += j.refLength {
+	// only whole references: the payload of a fetched chunk need not be a
+	// multiple of the reference length
+	for cursor := 0; cursor+j.refLength <= len(data); cursor += j.refLength {
 		if bytesToRead == 0 {
 			break
 		}
@@ -272,7 +274,9 @@ func (j *joiner) processChunkAddresses(ctx context.Context, fn boson.AddressIter
 
 	var wg sync.WaitGroup
 
-	for cursor := 0; cursor < len(data); cursor += j.refLength {
+	// only whole references: the payload of a fetched chunk need not be a
+	// multiple of the reference length
+	for cursor := 0; cursor+j.refLength <= len(data); cursor += j.refLength {
 
 		address := boson.NewAddress(data[cursor : cursor+j.refLength])
 
